@@ -212,6 +212,8 @@ class ApplyMixin:
     def assign_place(self, target: ast.AST, val: SV, st, fr):
         v = self.voc
         if isinstance(target, ast.Name):
+            if val.pt == "any" and fr.contract is not None and target.id in getattr(fr.contract, "sorts", {}) and fr.kind != "spec":
+                val = self.with_sort(val.t, fr.contract.sorts[target.id])
             st.env[target.id] = val
             return
         if isinstance(target, ast.Attribute):
